@@ -116,6 +116,19 @@ Theorem assembled_reply4_matches_request :
 Proof. exact (@AsmRefine.assembled_reply4_matches_request). Qed.
 Print Assumptions assembled_reply4_matches_request.
 
+Theorem instances_type_preserving :
+  forall (now : Z) (i : inst4), type_preserving (as_handler4 now i).
+Proof. exact (@AsmRefine.inst_type_preserving). Qed.
+Print Assumptions instances_type_preserving.
+
+Theorem assembled_reply4_type :
+  forall (is : list inst4) (lif now : Z) (oob : option Z) (req : msg4)
+  (is' : list inst4) (d : dest4) (m : msg4),
+  srv4_step is lif now oob (Some req) = (is', O4Sent d m) ->
+  msg_type req = 1 /\ msg_type m = 2 \/ msg_type req = 3 /\ msg_type m = 5.
+Proof. exact (@AsmRefine.assembled_reply4_type). Qed.
+Print Assumptions assembled_reply4_type.
+
 (* Non-vacuity (proofs/Server4Examples.v): a DISCOVER through the chain [mark; set yiaddr; stop; mark]
    on an unbound listener is answered by a link-level OFFER on the receiving interface, the fourth
    handler never runs; a relayed REQUEST turned into a NAK goes to the relay agent on port 67;
